@@ -39,7 +39,7 @@ Proof.
   rewrite (N.mod_small (N.shiftl l 40) W64) by (rewrite N.shiftl_mul_pow2; unfold W64; plia).
   rewrite (lor_shiftl_small (i * 2 ^ 24) l 40) by plia.
   replace (l * 2 ^ 40 + i * 2 ^ 24) with (N.shiftl (l * 2 ^ 16 + i) 24) by (rewrite N.shiftl_mul_pow2; plia).
-  rewrite (lor_shiftl_small n _ 24 Hn). plia.
+  rewrite (lor_shiftl_small n _ 24 Hn). rewrite N.shiftl_mul_pow2. reflexivity.
 Qed.
 
 (* the three fields of a packed value are the ones it was built from *)
